@@ -17,10 +17,10 @@ def shards(tier, seed):
     out = []
     ka = 2 if tier == "quick" else 5
     for L in T.LETTERS:
-        out.append({"name": "naming-" + L, "kind": "naming", "letter": L, "k": ka, "weight": 5})
+        out.append({"name": "naming-" + L, "kind": "naming", "letter": L, "k": ka, "weight": 5, "after_history": L in "CG"})
     for L in T.LETTERS:
-        out.append({"name": "shorthand-" + L, "kind": "shorthand", "letter": L,
-                    "grids": [[2, 2]] if tier == "quick" else [[4, 4], [6, 2]], "weight": 6})
+        out.append({"name": "shorthand-" + L, "kind": "shorthand", "letter": L, "after_history": L in "CA",
+                    "grids": [[2, 2], [3, 2]] if tier == "quick" else [[4, 4], [6, 2]], "weight": 6})
     out.append({"name": "invert", "kind": "invert", "n": 300 if tier == "quick" else 5000, "weight": 1})
     return out
 
